@@ -28,6 +28,10 @@ def empty(): return T()
 def copy(m): return T(m)
 def set_scalar(h): h.f_int32 = 9
 def set_field(h): proto.set_field(h, T.f_int32, 8)
+def clear_scalar(h): h.f_int32 = None
+def clear_sub(h): h.f_msg = None
+def clear_rep(h): h.r_int32 = None
+def clear_by_set_field(h): proto.set_field(h, T.f_int32, None)
 def setsub(o, m): o.f_msg = m.f_msg
 def asg_r_int32(o, m): o.r_int32 = m.r_int32
 def asg_r_msg(o, m): o.r_msg = m.r_msg
@@ -223,6 +227,8 @@ func (cfg *sconfig) ops() []sop {
 		for _, ab := range [][]mut{
 			{{hMsg, "set_scalar", h + ".f_int32 = 9"}, {hListInt, "idx_int", h + "[0] = 9"}, {hListMsg, "idx_msg", h + "[0] = T(f_int32=9)"}, {hMapSI, "key_a", h + `["a"] = 9`}, {hMapIM, "mkey6", h + "[6] = T(f_int32=9)"}},
 			{{hMsg, "set_field", "proto.set_field(" + h + ", T.f_int32, 8)"}, {hListInt, "app_int", h + ".append(8)"}, {hListMsg, "app_msg", h + ".append(T(f_int32=8))"}, {hMapSI, "key_b", h + `["b"] = 8`}, {hMapIM, "mkey7", h + "[7] = T(f_int32=8)"}},
+			// assigning None clears a field: a mutation like any other
+			{{hMsg, "clear_scalar", h + ".f_int32 = None"}, {hMsg, "clear_sub", h + ".f_msg = None"}, {hMsg, "clear_rep", h + ".r_int32 = None"}, {hMsg, "clear_by_set_field", "proto.set_field(" + h + ", T.f_int32, None)"}},
 		} {
 			for _, m := range ab {
 				m := m
